@@ -1796,7 +1796,9 @@ def shape_supercell_matrix(smat: Optional[Union[Sequence, np.ndarray]]) -> np.nd
     elif len(np.ravel(smat)) == 3:
         _smat = np.diag(smat)
     elif len(np.ravel(smat)) == 9:
-        _smat = np.reshape(smat, (3, 3))
+        # np.array makes a copy: np.reshape alone returns a view of an ndarray
+        # given by the caller (or by Phonopy.copy()), which would share memory.
+        _smat = np.array(np.reshape(smat, (3, 3)))
     else:
         msg = "supercell_matrix shape has to be (3,) or (3, 3)"
         raise RuntimeError(msg)
